@@ -117,16 +117,12 @@ func zzSymbolicCluster() (*c, *zzClient, bool, bool) {
 	}
 	watch := nd.Bool("watchWithoutClass")
 	prec := nd.Bool("classPrecedence")
-	cache := &c{
-		ctx:    context.Background(),
-		client: cl,
-		config: &config.Config{
-			IngressClass:             zzOurClass,
-			ControllerName:           zzOurController,
-			WatchIngressWithoutClass: watch,
-			IngressClassPrecedence:   prec,
-		},
-	}
+	cache := createCacheFacade(context.Background(), cl, &config.Config{
+		IngressClass:             zzOurClass,
+		ControllerName:           zzOurController,
+		WatchIngressWithoutClass: watch,
+		IngressClassPrecedence:   prec,
+	}, nil, nil, nil, nil)
 	return cache, cl, watch, prec
 }
 
